@@ -140,8 +140,9 @@ type Path struct {
 	obs       []obsRec
 	lenient   bool
 	ufTable   map[string]uint64
-	pools     map[string][]Value // sync.Pool contents, keyed by pool object
-	pure      bool               // speculative evaluation during if-conversion: anything that would fork or raise aborts
+	pools     map[string][]Value  // sync.Pool contents, keyed by pool object
+	syncMaps  map[string][]syncKV // sync.Map contents
+	pure      bool                // speculative evaluation during if-conversion: anything that would fork or raise aborts
 }
 
 type obsRec struct {
@@ -200,6 +201,12 @@ func (p *Path) clone() *Path {
 		c.onceDone[k] = v
 	}
 	c.obs = append([]obsRec(nil), p.obs...)
+	if p.syncMaps != nil {
+		c.syncMaps = make(map[string][]syncKV, len(p.syncMaps))
+		for k, v := range p.syncMaps {
+			c.syncMaps[k] = v // slices are copied on write
+		}
+	}
 	if p.pools != nil {
 		c.pools = make(map[string][]Value, len(p.pools))
 		for k, v := range p.pools {
